@@ -69,6 +69,20 @@ def is_seq_ref(t, elem):
     return t.startswith("&") and seq_elem(t) == elem
 
 
+def mentions_expr(prog, t):
+    """Does type string t mention an expression of the AST: `RawExpr` itself,
+    the `(RawExpr, Location)` pair, or a crate struct pairing a `RawExpr` with
+    its location (`Expr{raw, loc}`)?"""
+    if "ast::RawExpr" in t:
+        return True
+    memo = getattr(prog, "_expr_adts", None)
+    if memo is None:
+        memo = prog._expr_adts = {p for p, a in prog.adts.items()
+                                  if not p.startswith(("std::", "core::", "alloc::")) and len(a.get("variants", [])) == 1
+                                  and any(fd["ty"] == "ast::RawExpr" for fd in a["variants"][0]["fields"])}
+    return any(p in t for p in memo)
+
+
 def evaluation_reach(prog):
     """Everything that can run while a script is being evaluated: the forward
     closure (function pointers included, i.e. the builtins) of the
